@@ -178,6 +178,31 @@ static std::string read_file(const std::string& path) {
   return ss.str();
 }
 
+// A replay file holds one plan, or several: then the earlier plans are the HISTORY of the worker process (earlier
+// sessions executed in the same process) that the last plan needs in order to show its violation.
+static std::vector<Plan> plans_from_text(const std::string& text) {
+  std::vector<Plan> out;
+  std::vector<std::string> lines = split_lines(text);
+  std::string cur;
+  bool in = false;
+  for (const std::string& l : lines) {
+    if (l.compare(0, 8, "simplan ") == 0) {
+      if (in) {
+        Plan p;
+        if (plan_from_text(cur, p)) out.push_back(p);
+      }
+      cur.clear();
+      in = true;
+    }
+    if (in) cur += l + "\n";
+  }
+  if (in) {
+    Plan p;
+    if (plan_from_text(cur, p)) out.push_back(p);
+  }
+  return out;
+}
+
 // ---------------------------------------------------------------------- minimisation (ddmin, forked candidates)
 struct Target {
   std::string prop, oracle, sig;
@@ -190,6 +215,7 @@ struct Probe {
   int step = -1;
 };
 static int g_probe_count = 0;
+static std::vector<Plan> g_history;  // plans executed before every candidate (history of the process)
 static Probe probe(const Plan& plan, const Target& t) {
   ++g_probe_count;
   Probe pr;
@@ -203,6 +229,7 @@ static Probe probe(const Plan& plan, const Target& t) {
     // crash lines of the child go to the pipe too
     FILE* o = fdopen(fds[1], "w");
     g_out = o;
+    for (const Plan& h : g_history) (void)run_one(h);
     RunResult rr = run_one(plan);
     for (const Violation& v : rr.viols) {
       if (v.prop == t.prop && v.oracle == t.oracle && (t.sig.empty() || v.sig == t.sig)) {
@@ -425,18 +452,26 @@ int main(int argc, char** argv) {
     _exit(0);
   }
   if (mode == "replay") {
-    Plan plan;
-    if (!plan_from_text(read_file(file), plan)) sim_die("not a plan file");
-    fprintf(g_out, "START idx=0 seed=%llu\n", (unsigned long long)plan.seed);
-    fflush(g_out);
-    RunResult rr = run_one(plan);
-    print_result("RUN", 0, plan, rr);
+    std::vector<Plan> plans = plans_from_text(read_file(file));
+    if (plans.empty()) sim_die("not a plan file");
+    RunResult rr;
+    for (size_t i = 0; i < plans.size(); ++i) {
+      fprintf(g_out, "START idx=%zu seed=%llu\n", i, (unsigned long long)plans[i].seed);
+      fflush(g_out);
+      if (i + 1 < plans.size()) g_trace_mute = true;  // history: only the last plan is traced
+      rr = run_one(plans[i]);
+      g_trace_mute = false;
+      print_result(i + 1 < plans.size() ? "HISTORY" : "RUN", i, plans[i], rr);
+    }
     fflush(g_out);
     _exit(rr.viols.empty() ? 0 : 1);
   }
   if (mode == "minimise") {
-    Plan plan;
-    if (!plan_from_text(read_file(file), plan)) sim_die("not a plan file");
+    std::vector<Plan> plans = plans_from_text(read_file(file));
+    if (plans.empty()) sim_die("not a plan file");
+    Plan plan = plans.back();
+    plans.pop_back();
+    g_history = plans;
     Target t;
     t.prop = tprop;
     t.oracle = toracle;
@@ -448,20 +483,62 @@ int main(int argc, char** argv) {
       fflush(g_out);
       _exit(3);
     }
-    size_t before = count_steps(plan.steps);
-    Plan m = minimise(plan, t, 500);
+    size_t before = count_steps(plan.steps), hist_before = g_history.size();
+    // history first: whole earlier sessions are dropped while the violation persists (suffixes, then single plans)
+    if (!g_history.empty()) {
+      std::vector<Plan> full = g_history;
+      g_history.clear();
+      if (!probe(plan, t).hit) {
+        size_t keep = 1;
+        for (;; keep *= 2) {
+          if (keep > full.size()) keep = full.size();
+          g_history.assign(full.end() - (long)keep, full.end());
+          if (probe(plan, t).hit || keep == full.size()) break;
+        }
+        for (size_t i = 0; i < g_history.size() && g_probe_count < 300;) {
+          std::vector<Plan> saved = g_history;
+          g_history.erase(g_history.begin() + (long)i);
+          if (probe(plan, t).hit) continue;
+          g_history = saved;
+          ++i;
+        }
+      }
+    }
+    Plan m = minimise(plan, t, 600);
+    // the remaining history plans are minimised too, one after the other, with the final plan fixed
+    for (size_t hi = 0; hi < g_history.size() && g_probe_count < 900; ++hi) {
+      Plan hp = g_history[hi];
+      // greedy single-step removal inside the history plan
+      for (size_t i = 0; i < hp.steps.size() && hp.steps.size() > 1 && g_probe_count < 900;) {
+        Plan c = hp;
+        c.steps.erase(c.steps.begin() + (long)i);
+        Plan saved = g_history[hi];
+        g_history[hi] = c;
+        if (probe(m, t).hit) {
+          hp = c;
+        } else {
+          g_history[hi] = saved;
+          ++i;
+        }
+      }
+      g_history[hi] = hp;
+    }
     Probe last = probe(m, t);
-    if (!last.hit) {  // cannot happen for a deterministic simulator; fall back to the original plan
+    if (!last.hit) {  // cannot happen for a deterministic simulator; fall back to the original
       m = plan;
+      g_history = plans;
       last = first;
     }
     std::string text;
-    text += "# simulator replay file (plan format: sim/sim_plan.h); replay with: sim --data DIR --replay THISFILE --trace\n";
+    text += "# simulator replay file (plan format: sim/sim_plan.h); replay with: python3 replay.py THISFILE --trace\n";
     text += "# property=" + t.prop + "\n# oracle=" + t.oracle + "\n# sig=" + pct_encode(t.sig) + "\n# crash=" + (t.crash ? "1" : "0") + "\n# variant=" + variant + "\n";
-    char b[128];
-    snprintf(b, sizeof b, "# loghash=%016llx\n# steps_before=%zu\n# steps_after=%zu\n# probes=%d\n", (unsigned long long)last.loghash, before, count_steps(m.steps), g_probe_count);
+    char b[256];
+    snprintf(b, sizeof b, "# loghash=%016llx\n# steps_before=%zu\n# steps_after=%zu\n# probes=%d\n# history_plans_before=%zu\n# history_plans_after=%zu\n", (unsigned long long)last.loghash, before,
+             count_steps(m.steps), g_probe_count, hist_before, g_history.size());
     text += b;
     text += "# message=" + pct_encode(last.msg) + "\n";
+    if (!g_history.empty()) text += "# the plans before the last one are earlier sessions of the same process (history the violation depends on)\n";
+    for (const Plan& h : g_history) text += plan_to_text(h);
     text += plan_to_text(m);
     if (!out.empty()) {
       FILE* f = fopen(out.c_str(), "w");
@@ -469,7 +546,7 @@ int main(int argc, char** argv) {
       fputs(text.c_str(), f);
       fclose(f);
     }
-    fprintf(g_out, "MINIMISED steps_before=%zu steps_after=%zu probes=%d loghash=%016llx\n", before, count_steps(m.steps), g_probe_count, (unsigned long long)last.loghash);
+    fprintf(g_out, "MINIMISED steps_before=%zu steps_after=%zu probes=%d history=%zu loghash=%016llx\n", before, count_steps(m.steps), g_probe_count, g_history.size(), (unsigned long long)last.loghash);
     fflush(g_out);
     _exit(0);
   }
